@@ -102,10 +102,10 @@ Qed.
 Theorem expunge_replay (mbox : list msg) :
   NoDup (map m_id mbox) ->
   let '(notices, mbox') := handle_expunge mbox in
-  mbox' = filter (fun m => negb (like_deleted (m_flags m))) mbox /\ replay notices mbox = mbox'.
+  mbox' = filter (fun m => negb (sql_deleted (m_flags m))) mbox /\ replay notices mbox = mbox'.
 Proof.
   intros Hnd. unfold handle_expunge.
-  pose proof (expunge_sel_correct (fun m => like_deleted (m_flags m)) mbox Hnd) as [H1 H2].
+  pose proof (expunge_sel_correct (fun m => sql_deleted (m_flags m)) mbox Hnd) as [H1 H2].
   destruct (expunge_sel _ mbox) as [ns mb]. simpl in *. now split.
 Qed.
 
@@ -127,13 +127,13 @@ Qed.
 (** CLOSE *)
 Theorem close_exact (mbox : list msg) :
   NoDup (map m_id mbox) ->
-  handle_close mbox = filter (fun m => negb (like_deleted (m_flags m))) mbox.
+  handle_close mbox = filter (fun m => negb (sql_deleted (m_flags m))) mbox.
 Proof. intros Hnd. unfold handle_close. now apply remove_ids_filter. Qed.
 
 (** where no stored flag string fools LIKE, "flagged \Deleted" is the atom test *)
 Lemma filter_deleted_spec (mbox : list msg) :
-  (forall m, In m mbox -> like_deleted (m_flags m) = has_deleted (m_flags m)) ->
-  filter (fun m => negb (like_deleted (m_flags m))) mbox = filter (fun m => negb (has_deleted (m_flags m))) mbox.
+  (forall m, In m mbox -> sql_deleted (m_flags m) = has_deleted (m_flags m)) ->
+  filter (fun m => negb (sql_deleted (m_flags m))) mbox = filter (fun m => negb (has_deleted (m_flags m))) mbox.
 Proof. intros H. apply filter_ext_in. intros m Hm. now rewrite H. Qed.
 
 (** ---- listings describe the same mailbox ---- *)
